@@ -7,6 +7,7 @@ From SV Require Import model.TrellisDD.
 From SV Require Import model.Clean.
 From SV Require Import proofs.TrellisDDProofs.
 From SV Require Import proofs.CleanProofs.
+From SV Require Import proofs.CleanOptional.
 Import ListNotations.
 Open Scope N_scope.
 
@@ -189,4 +190,42 @@ Proof.
   destruct (fs_get (s_fs (finalize c (init_state g f))) q) as [e'|] eqn:E.
   - left. rewrite (Hsub q e' E) in Hq. congruence.
   - right. apply Hvan; [congruence | exact E].
+Qed.
+
+(* ---- C07: outputs of unneeded optional steps, any kind, when the decisions come first -------------------------- *)
+
+Theorem optional_outputs_removed_any_kind c g f n v :
+  rdf_decide_first = true ->
+  existsb (guard_fires c) finalize_guards = false ->          (* successful, unrestricted, cleaning enabled *)
+  keys_nodup g ->
+  In n (gnodes g) -> is_revert_target g n = true ->              (* a VOLATILE/BUILT/OUTDATED output of an attached step with _implied_need = OPTIONAL *)
+  rq_value n = Some v ->
+  (v = None \/ exists h, v = Some h /\ stat f (nlabel n) = SFile h) ->   (* VOLATILE, or reads as exactly the recorded hash *)
+  is_unlinkable (fs_get f (nlabel n)) = true ->                  (* a regular file or a symbolic link *)
+  fs_get (s_fs (finalize c (init_state g f))) (nlabel n) = None.
+Proof.
+  intros Hflag Hguard Hnd Hn Ht Hv Hvv Hdisk.
+  rewrite (finalize_unguarded c g f Hguard).
+  destruct (revert_optional g empty_queue) as [g1 q1] eqn:Hrev. cbv zeta. cbn [s_g s_fs].
+  assert (g1 = fst (revert_optional g empty_queue)) as Hg1 by (rewrite Hrev; reflexivity).
+  assert (q1 = snd (revert_optional g empty_queue)) as Hq1 by (rewrite Hrev; reflexivity).
+  pose proof (revert_target_kind g n Ht) as Hkind.
+  apply (unmodified_queued_removed_two_pass Hflag _ f (nlabel n) v); [|exact Hvv | exact Hdisk].
+  apply queue_deleted_keeps_weak.
+  + intros x Hx Hxk Hxl.
+    unfold workflow_dd in Hx. rewrite trellis_dd_deleted in Hx. apply in_rev in Hx.
+    unfold dd_raw in Hx. apply dd_loop_acc_sub in Hx. destruct Hx as [[]|Hx].
+    unfold prestep in Hx. cbn [gnodes] in Hx. apply in_map_iff in Hx. destruct Hx as [x1 [<- Hx1]].
+    rewrite Hg1 in Hx1. unfold revert_optional in Hx1. cbn [fst gnodes] in Hx1.
+    apply in_map_iff in Hx1. destruct Hx1 as [m [<- Hm]].
+    assert (m = n) as ->.
+    { apply (nodup_map_inj nkey (gnodes g)); [exact Hnd | exact Hm | exact Hn|].
+      rewrite <- (revert_node_key g m), <- (prestep_node_key g1 (revert_node g m)).
+      apply same_file_label_same_key; assumption. }
+    apply bd_value_reverted; assumption.
+  + rewrite Hq1. unfold revert_optional. cbn [snd]. apply revert_fold_sets; [| | exact Hv].
+    * apply filter_In. split; assumption.
+    * intros x Hx Hxl. apply filter_In in Hx. destruct Hx as [Hx Hxt].
+      apply (nodup_map_inj nkey (gnodes g)); [exact Hnd | exact Hx | exact Hn|].
+      apply same_file_label_same_key; [apply (revert_target_kind g x Hxt) | exact Hkind | exact Hxl].
 Qed.
